@@ -17,8 +17,7 @@ build() {
 case "${1:-}" in
   setup)
     build || exit 1
-    (cd mc && go build -race -o "$BIN/mc-race" ./cmd/mc) || exit 1
-    if [ -x ./setup_extra.sh ]; then ./setup_extra.sh || exit 1; fi
+    ./checks/C11.sh build || exit 1   # warms the overlay build and the -race build
     echo "setup ok"
     ;;
   replay)
